@@ -34,7 +34,7 @@ LEVEL_TEXT = (
 LEVEL_NOTE = "Trusted: Python float modulo (exact on the lattice), fractions for the width/representability decision off-lattice."
 TECHNIQUE = "runtime postcondition monitor with an exact modular-arithmetic oracle plus verde.inside applied to the returned values; exhaustive 5-degree lattice + seeded off-lattice and rejection workload"
 FLOORS = {
-    "quick": {"eval:region": 12000, "eval:longitudes": 12000, "eval:inside": 12000, "eval:rejection": 300, "distinct_nontrivial": 2500, "eval:forms": 40, "class:longitude_subset_calls": 8000, "class:mixed_dtype_coordinates": 40, "class:point_spelling_python": 150, "class:point_spelling_zero_d": 150, "class:invalid_value_among_undefined": 15, "class:all_zero_coordinates": 80, "class:same_object_longitude_and_latitude": 80, "class:concurrent_calls": 1000},
+    "quick": {"eval:region": 12000, "eval:longitudes": 12000, "eval:inside": 12000, "eval:rejection": 300, "distinct_nontrivial": 2500, "eval:forms": 40, "class:longitude_subset_calls": 8000, "class:mixed_dtype_coordinates": 40, "class:point_spelling_python": 150, "class:point_spelling_zero_d": 150, "class:invalid_value_among_undefined": 15, "class:all_zero_coordinates": 80, "class:region_in_read_only_array": 40, "class:same_object_longitude_and_latitude": 80, "class:concurrent_calls": 1000},
     "thorough": {"eval:region": 40000, "eval:longitudes": 40000, "eval:inside": 40000, "eval:rejection": 3000, "distinct_nontrivial": 20000},
 }
 JOBS = {"quick": 1, "thorough": 16}
@@ -417,6 +417,21 @@ def run_case(run, tap, stream, index, rng):
                 vd.longitude_continuity((same,) * 2, [300.0, 60.0, -90.0, 90.0])
                 vd.longitude_continuity([same, same, same], [-100.0, 100.0, -90.0, 90.0])
                 run.count("class:same_object_longitude_and_latitude", 3)
+            # regions held in arrays the function may not write to (a row of a DataFrame, np.broadcast_to, np.frombuffer) and in
+            # ordinary arrays that must come back untouched
+            ro_region = np.array(region, dtype="float64")
+            ro_region.setflags(write=False)
+            vd.longitude_continuity(None, ro_region)
+            vd.longitude_continuity((lon2d, lat2d), ro_region)
+            vd.longitude_continuity(None, np.frombuffer(np.array(region, dtype="float64").tobytes(), dtype="float64"))
+            rw_region = np.array(region, dtype="float64")
+            before = rw_region.copy()
+            vd.longitude_continuity((lon2d, lat2d), rw_region)
+            vd.longitude_continuity(None, rw_region)
+            run.evaluated("region_argument_untouched")
+            run.count("class:region_in_read_only_array", 3)
+            if not np.array_equal(rw_region, before):
+                run.violation("region_argument_untouched", "the region array passed in was modified in place", {"before": before, "after": rw_region}, key="region-modified")
             cf, rf = vd.longitude_continuity((np.asfortranarray(lon2d), np.ascontiguousarray(lat2d.T).T), tuple(region))
             if not (np.array_equal(cf[0], c2d[0]) and np.array_equal(np.asarray(rf, dtype=float), np.asarray(r2d, dtype=float))):
                 run.violation("forms", "the result depends on the memory layout of the coordinate arrays", {"region": region}, key="forms-layout")
